@@ -1000,3 +1000,39 @@ mut("C20", "r9-file-suffix-cut-unguarded", "log/input.go",
     "\t\tif len(file) > 3 {\n\t\t\tfile = file[:len(file)-3]", "\t\tif len(file) > 1 {\n\t\t\tfile = file[:len(file)-3]", "C20-R9|log.log", comment="x[:len(x)-3] needs len >= 3")
 mut("C20", "r9-submit-empty-tracer-unguarded", "log/trace.go",
     "\tif len(tracer.logs) == 0 {\n\t\treturn\n\t}\n\n\t// extract last line as main line", "\t// extract last line as main line", "C20-R9|log.(*ContextTracer).Submit", comment="x[len(x)-1] on an empty tracer")
+
+def r8(prop, name, seed, expect):
+    from_patch(prop, name, seed, expect, comment="round-8 seed " + seed)
+r8("C01", "r13-reset-only-online-modules", "C01-h1", "C01-R13|modules.buildEnabledTree")
+r8("C01", "r14-ready-at-first-online-dependency", "C01-h2", "C01-R14|modules.(*Module).readyToStart")
+r8("C02", "r19-batch-delete-by-full-key", "C02-h2", "C02-R19|database/storage/bbolt.(*BBolt).batchPutOrDelete")
+r8("C04", "r15-load-skips-empty-file", "C04-h1", "C04-R15|config.loadConfig")
+r8("C05", "r13-startworker-uncounted", "C05-h2", "C05-R13|modules.(*Module).runWorker")
+r8("C06", "r15-start-failure-keeps-starting", "C06-h1", "C06-R15|")
+r8("C07", "r16-cancel-while-executing", "C07-h1", "C07-R16|modules.(*Task).Cancel")
+r8("C07", "r15-sleep-mode-wakes-queue", "C07-h2", "C07-R15|modules.SetSleepMode")
+r8("C08", "r12-unwrap-meta-only-without-key", "C08-h2", "C08-R12|database/record.Unwrap")
+r8("C10", "r8-peekcontainer-count-negative", "C10-h2", "C10-R8|container.(*Container).PeekContainer")
+r8("C16", "r15-peekcontainer-count-negative", "C10-h2", "C16-R15|container.(*Container).PeekContainer")
+r8("C11", "r18-check-without-where-unchecked", "C11-h1", "C11-R18|database/query.(*Query).Check")
+r8("C11", "r19-exists-by-spelling", "C11-h2", "C11-R19|")
+r8("C11", "r17-not-operator-error-dropped", "C13-h1", "C11-R17|database/query.parseCondition")
+r8("C12", "r15-write-permission-returns-read", "C12-h2", "C12-R15|api.(*wrappedAuthenticatedHandler).WritePermission")
+r8("C13", "r13-not-operator-error-dropped", "C13-h1", "C13-R13|database/query.parseCondition")
+r8("C13", "r14-bbolt-sends-tx-memory", "C13-h2", "C13-R14|database/storage/bbolt.(*BBolt).queryExecutor$1")
+r8("C14", "r13-replace-config-invalid-not-pushed", "C14-h1", "C14-R13|config.ReplaceConfig$1")
+r8("C04", "r16-replace-config-invalid-not-announced", "C14-h1", "C04-R16|config.ReplaceConfig$1")
+r8("C16", "r16-append-block-foreign-offset", "C16-h2", "C16-R16|container.(*Container).AppendContainerAsBlock")
+r8("C17", "r12-unpack-in-storage-dir", "C17-h2", "C17-R12|updater.(*Resource).unpackZipArchive")
+r8("C18", "r6-symlink-dir-check-skipped", "C18-h1", "C18-R6|")
+r8("C18", "r7-fstree-root-not-absolute", "C18-h2", "C18-R7|")
+r8("C19", "r15-mark-active-only-first", "C19-h1", "C19-R15|")
+r8("C19", "r16-blacklist-selected-version", "C19-h2", "C19-R16|")
+r8("C20", "r11-tracer-append-outside-lock", "C20-h2", "C20-R11|")
+# accessor distinctness in the other packages
+mut("C19", "r14-tmpdir-returns-storage-dir", "updater/registry.go",
+    "\treturn reg.tmpDir\n", "\treturn reg.storageDir\n", "C19-R14|updater.(*ResourceRegistry).TmpDir", comment="A16")
+mut("C08", "r13-database-name-returns-key", "database/record/base.go",
+    "\treturn b.dbName\n", "\treturn b.dbKey\n", "C08-R13|database/record.(*Base).DatabaseName", comment="A16")
+mut("C20", "r10-text-returns-file", "log/logging.go",
+    "\treturn ll.msg\n", "\treturn ll.file\n", "C20-R10|", comment="A16")
